@@ -103,7 +103,17 @@ func (g *Gen) tplCoroutines() []L.Stmt {
 				g.class("co:resume_running")
 			case 7:
 				if g.n(2, "coerr") == 0 {
-					body = append(body, ifs(bin("==", name("loc"), name("loc")), blk(callStmt(call(name("error"), tbl(kv(str("from"), str(cn)))))), nil))
+					switch g.n(3, "coerrkind") {
+					case 0:
+						body = append(body, ifs(bin("==", name("loc"), name("loc")), blk(callStmt(call(name("error"), tbl(kv(str("from"), str(cn)))))), nil))
+					case 1:
+						// a fault raised by a VM instruction; what follows must never run
+						body = append(body, local1("nz", &L.NilExpr{}), local1("bad", field(name("nz"), "fld")), emit(str(cn+" went on after its fault"), name("bad")))
+						g.class("co:vm_fault_in_body")
+					default:
+						body = append(body, local1("nz", &L.NilExpr{}), assign1(name("loc"), bin("+", name("nz"), num(1))), emit(str(cn+" went on after its fault"), name("loc")))
+						g.class("co:vm_fault_in_body")
+					}
 					g.class("co:error_in_body")
 				}
 			case 8, 9:
@@ -166,7 +176,14 @@ func (g *Gen) innerCoroutine(cn string, depth int, esc string) []L.Stmt {
 	end := g.n(4, "innerend")
 	switch end {
 	case 0:
-		body = append(body, ifs(bin("==", name("loc"), name("loc")), blk(callStmt(call(name("error"), str(tag+" fails")))), nil))
+		switch g.n(3, "innerfailkind") {
+		case 0:
+			body = append(body, ifs(bin("==", name("loc"), name("loc")), blk(callStmt(call(name("error"), str(tag+" fails")))), nil))
+		case 1:
+			body = append(body, ifs(bin("==", name("loc"), name("loc")), blk(callStmt(call(name("error"), tbl(kv(str("inner"), str(tag)))))), nil))
+		default:
+			body = append(body, local1("nz", &L.NilExpr{}), local1("bad", field(name("nz"), "fld")), emit(str(tag+" went on after its fault")))
+		}
 		g.class("co:inner_fails")
 	default:
 		body = append(body, ret(append([]L.Expr{str(tag + " returns")}, g.payload("ir")...)...))
@@ -182,8 +199,17 @@ func (g *Gen) innerCoroutine(cn string, depth int, esc string) []L.Stmt {
 	}
 	if g.n(3, "innerwrap") == 0 {
 		out = append(out, local1("iw", co("wrap", fe)))
+		unprotected := g.n(3, "innerunprotected") == 0
+		if unprotected {
+			// an error of the inner coroutine escapes into its creator and kills that too: its resumer gets the value
+			g.class("co:inner_wrap_called_unprotected")
+		}
 		for i := 0; i < nr; i++ {
-			out = append(out, emit(str(tag+" wrap call"), call(name("pcall"), append([]L.Expr{name("iw")}, g.payload("ip")...)...)))
+			if unprotected {
+				out = append(out, emit(str(tag+" bare wrap call"), call(name("iw"), g.payload("ip")...)))
+			} else {
+				out = append(out, emit(str(tag+" wrap call"), call(name("pcall"), append([]L.Expr{name("iw")}, g.payload("ip")...)...)))
+			}
 		}
 	} else {
 		out = append(out, local1("ic", co("create", fe)))
